@@ -24,9 +24,10 @@ TC == [k |-> "C"]   TE == [k |-> "E"]
 \* a declared name for a type (TypeAlias) and an optional: both are transparent for what can be done with the value
 TAlias(name, t) == [k |-> "alias", name |-> name, t |-> t]
 TOpt(t) == [k |-> "opt", t |-> t]
+TOptN(t) == [k |-> "optn", t |-> t]        \* the same optional spelled None-first: None | T
 RECURSIVE U(_), Plain(_)
-U(t) == IF t.k \in {"alias", "opt"} THEN U(t.t) ELSE t
-Plain(t) == CASE t.k \in {"alias", "opt"} -> FALSE [] t.k = "list" -> Plain(t.e) [] t.k = "dict" -> Plain(t.v) [] t.k = "tuple" -> Plain(t.a) /\ Plain(t.b) [] OTHER -> TRUE
+U(t) == IF t.k \in {"alias", "opt", "optn"} THEN U(t.t) ELSE t
+Plain(t) == CASE t.k \in {"alias", "opt", "optn"} -> FALSE [] t.k = "list" -> Plain(t.e) [] t.k = "dict" -> Plain(t.v) [] t.k = "tuple" -> Plain(t.a) /\ Plain(t.b) [] OTHER -> TRUE
 
 RECURSIVE Describe(_)
 Describe(t) == CASE t.k = "list" -> "list<" \o Describe(t.e) \o ">"
@@ -34,13 +35,14 @@ Describe(t) == CASE t.k = "list" -> "list<" \o Describe(t.e) \o ">"
                  [] t.k = "tuple" -> "tuple<" \o Describe(t.a) \o ", " \o Describe(t.b) \o ">"
                  [] t.k = "alias" -> t.name \o "=" \o Describe(t.t)
                  [] t.k = "opt" -> "Union<" \o Describe(t.t) \o ", None>"
+                 [] t.k = "optn" -> "Union<None, " \o Describe(t.t) \o ">"
                  [] OTHER -> t.k
 \* the type the VALUE has at run time (an alias is its target, an optional that holds a value is that value's type)
 RECURSIVE RunTime(_)
 RunTime(t) == CASE t.k = "list" -> "list<" \o RunTime(t.e) \o ">"
                 [] t.k = "dict" -> "dict<str, " \o RunTime(t.v) \o ">"
                 [] t.k = "tuple" -> "tuple<" \o RunTime(t.a) \o ", " \o RunTime(t.b) \o ">"
-                [] t.k \in {"alias", "opt"} -> RunTime(t.t)
+                [] t.k \in {"alias", "opt", "optn"} -> RunTime(t.t)
                 [] OTHER -> t.k
 
 \* p = Python precedence level of the outermost construct (16 = atom / postfix chain)
@@ -58,13 +60,14 @@ Vars == { R("n", TInt), R("x", TFloat), R("b", TBool), R("s", TStr),
           R("xs", TList(TInt)), R("ys", TList(TStr)), R("d", TDict(TInt)), R("t", TTuple(TInt, TStr)),
           R("c", TC), R("e", TE), R("xss", TList(TList(TInt))), R("dl", TDict(TList(TFloat))), R("cs", TList(TC)),
           R("xa", TAlias("Ints", TList(TInt))), R("rows", TAlias("Rows", TList(TList(TInt)))), R("da", TAlias("DS", TDict(TInt))),
-          R("xo", TOpt(TList(TInt))), R("co", TOpt(TC)), R("lo", TOpt(TList(TC))) }
+          R("xo", TOpt(TList(TInt))), R("co", TOpt(TC)), R("lo", TOpt(TList(TC))),
+          R("xn", TOptN(TList(TInt))), R("cn", TOptN(TC)), R("ln", TOptN(TList(TC))) }
 Lits == { X("1", TInt), X("1.5", TFloat), X("True", TBool), X("'a'", TStr), X("C(2)", TC), X("E.A", TE) }
 
 \* one generation step: every expression obtainable from sub-expressions in S by one construct
 Step(S0) ==
   LET \* consumers see through aliases and optionals (views); producers of new containers take plain operands only
-      S == {z \in S0 : Plain(z.ty)} \cup {[z EXCEPT !.ty = U(z.ty), !.view = TRUE] : z \in {y \in S0 : y.ty.k \in {"alias", "opt"}}}
+      S == {z \in S0 : Plain(z.ty)} \cup {[z EXCEPT !.ty = U(z.ty), !.view = TRUE] : z \in {y \in S0 : y.ty.k \in {"alias", "opt", "optn"}}}
       SP == {z \in S : ~z.view}
   IN
   S0
@@ -112,7 +115,7 @@ Universe == Gen(Depth)
 RECURSIVE Determined(_)
 Determined(t) == CASE t.k = "list" -> Determined(t.e) [] t.k = "dict" -> Determined(t.v)
                    [] t.k = "tuple" -> Determined(t.a) /\ Determined(t.b)
-                   [] t.k \in {"alias", "opt"} -> Determined(t.t)
+                   [] t.k \in {"alias", "opt", "optn"} -> Determined(t.t)
                    [] OTHER -> t.k \in {"int", "float", "bool", "str", "C", "E"}
 Total == \A e \in Universe : Determined(e.ty)
 
